@@ -523,6 +523,9 @@ pub fn gen_plan(seed: u64, prof: &Profile) -> Plan {
     let await_pm: u64 = *r.pick(&[0, 300, 700, 1000]);
     let logs = prof.tracing;
     let log_burst = logs && r.chance(1, 3);
+    // a flood: hundreds to thousands of events emitted at the very end of one callback - more than the
+    // runner forwards or a writer buffers in one go at any conceivable batch size
+    let log_flood = log_burst && r.chance(1, 4);
     let mut gen_beh = |r: &mut Rng, world: bool| -> Behaviour {
         let mut awaits = Vec::new();
         if r.chance(await_pm, 1000) {
@@ -541,15 +544,17 @@ pub fn gen_plan(seed: u64, prof: &Profile) -> Plan {
         };
         let lg = if logs && world {
             // a World constructor logs now and then (it runs inside the before hook's or a step's span)
-            if r.chance(1, 3) { (r.below(3) as u8, r.below(3) as u8) } else { (0, 0) }
+            if r.chance(1, 3) { (r.below(3) as u16, r.below(3) as u16) } else { (0, 0) }
         } else if logs {
-            if log_burst && r.chance(1, 12) {
-                // a burst: many log events queued ahead of one result event
-                (r.range(20, 120) as u8, r.below(3) as u8)
+            if log_flood && r.chance(1, 25) {
+                (r.below(3) as u16, r.range(300, 3000) as u16)
             } else if log_burst && r.chance(1, 12) {
-                (r.below(3) as u8, r.range(20, 120) as u8)
+                // a burst: many log events queued ahead of one result event
+                (r.range(20, 120) as u16, r.below(3) as u16)
+            } else if log_burst && r.chance(1, 12) {
+                (r.below(3) as u16, r.range(20, 120) as u16)
             } else {
-                (r.below(4) as u8, r.below(4) as u8)
+                (r.below(4) as u16, r.below(4) as u16)
             }
         } else {
             (0, 0)
